@@ -160,6 +160,111 @@ def gen_lits():
         emit(k, v, "hand-listed literal")
     return ("namespace Nun.Gen\n\n" + "\n\n".join(L) + "\n\nend Nun.Gen\n")
 
+# ------------------------------------------------------------------ guard table of process_request_obj
+WRAPPERS = ["apply_if_auth", "apply_if_safe_access", "apply_to_database_name", "apply_to_database"]
+
+def gen_guards():
+    srcs = src("process_request.rs"); b = blank(srcs)
+    m = re.search(r"fn process_request_obj\b", b)
+    if not m: raise ExtractError("locator 'process_request_obj' not found")
+    ms = b.index("match request.clone() {", m.end())
+    i = b.index("{", ms) + 1; depth = 1; pos = i
+    while depth > 0:
+        c = b[pos]
+        if c in "{([": depth += 1
+        elif c in "})]": depth -= 1
+        pos += 1
+    body = b[i:pos - 1]
+    idxs = []
+    for mm in re.finditer(r"Request::\w+", body):
+        pre = body[:mm.start()]
+        d = sum(pre.count(x) for x in "{([") - sum(pre.count(x) for x in "})]")
+        if d == 0: idxs.append(mm.start())
+    if len(idxs) < 30: raise ExtractError(f"process_request_obj: only {len(idxs)} arms found")
+    idxs.append(len(body))
+    rows = []
+    for a, e in zip(idxs, idxs[1:]):
+        arm = body[a:e]; name = re.match(r"Request::(\w+)", arm).group(1)
+        rhs = arm[arm.index("=>") + 2:].strip()
+        inner = rhs
+        # a block whose only content is one wrapper call counts as that wrapper
+        if inner.startswith("{"):
+            inner2 = inner[1:].strip()
+            first = re.match(r"(\w+)\(", inner2)
+            if first and first.group(1) in WRAPPERS and inner2.rstrip().rstrip(",").rstrip("}").strip().endswith(")"):
+                # check it is a single statement (no ';' at depth 0 before the end)
+                depth = 0; single = True
+                for ch in inner2[:inner2.rindex(")")]:
+                    if ch in "{([": depth += 1
+                    elif ch in "})]": depth -= 1
+                    elif ch == ";" and depth == 0: single = False
+                if single: inner = inner2
+        first = re.match(r"(\w+)\(", inner)
+        if first and first.group(1) in WRAPPERS:
+            guard = first.group(1)
+        elif inner.startswith("{") or not first:
+            used = sorted(set(re.findall(r"\b(" + "|".join(WRAPPERS) + r")\b", rhs)))
+            guard = "custom" + ((":" + "+".join(used)) if used else "")
+        else:
+            guard = "none:" + first.group(1)
+        kinds = re.findall(r"PermissionKind::(\w+)", rhs)
+        kind = ""
+        if guard == "apply_if_safe_access" and kinds: kind = kinds[-1]
+        if guard.startswith("custom") and "apply_if_safe_access" in guard:
+            ks = [k for k in kinds if k != "Read"]
+            kind = ks[-1] if ks else (kinds[-1] if kinds else "")
+        rows.append((name, guard, kind))
+    L = ["namespace Nun.Gen", "", "/-- (request kind, first guard wrapper, permission kind) per arm of `process_request_obj` -/",
+         "def guardTable : List (List Nat × List Nat × List Nat) := ["]
+    L.append(",\n".join(f"  ({bytes_lit(n)}, {bytes_lit(g)}, {bytes_lit(k)})  -- {n} {g} {k}" for n, g, k in rows).replace("),\n", "),\n"))
+    L.append("]"); L.append(""); L.append("end Nun.Gen"); 
+    # comments after commas break the list syntax: put comments on their own lines instead
+    out = ["namespace Nun.Gen", "", "/-- (request kind, first guard wrapper, permission kind) per arm of `process_request_obj` -/",
+           "def guardTable : List (List Nat × List Nat × List Nat) := ["]
+    for ix, (n, g, k) in enumerate(rows):
+        out.append(f"  -- {n}: {g} {k}")
+        out.append(f"  ({bytes_lit(n)}, {bytes_lit(g)}, {bytes_lit(k)})" + ("," if ix + 1 < len(rows) else ""))
+    out += ["]", "", "end Nun.Gen", ""]
+    return "\n".join(out)
+
+# ------------------------------------------------------------------ panic-site inventory (request path)
+REQUEST_PATH = {
+    "parse_request.rs": None, "process_request.rs": None, "security.rs": None, "db_ops.rs": None, "bo.rs": None,
+    "consensus_ops.rs": None, "network/http_ops.rs": ["process_commands"],
+    "replication_ops.rs": ["replicate_message", "register_pending_opp", "get_pending_opp_copy", "acknowledge_pending_opp",
+                           "ack", "replicated", "replicate_message_with_sender", "replicate_web", "replicate_change",
+                           "replicate_request", "replicate_if_some", "send_message_to_primary"],
+    "election_ops.rs": ["election_eval", "election_win", "start_new_election", "start_election"],
+}
+
+def gen_panic_sites():
+    rows = {}
+    for rel, fns in REQUEST_PATH.items():
+        text = src(rel)
+        cut = text.find("#[cfg(test)]\nmod tests")
+        if cut > 0: text = text[:cut]
+        b = blank(text)
+        fnpos = [(m.start(), m.group(1)) for m in re.finditer(r"\bfn\s+(\w+)", b)]
+        for m in re.finditer(r"\.unwrap\(\)|\.expect\(|panic!\(|unreachable!\(", b):
+            pre = re.sub(r"\s+", " ", b[max(0, m.start() - 90):m.start()])
+            if re.search(r"\.(read|write|lock)\(\)\s*$", pre): continue   # lock-poison-only
+            fn = "?"
+            for pos, name in fnpos:
+                if pos < m.start(): fn = name
+            if fns is not None and fn not in fns: continue
+            kind = m.group(0).strip(".(")
+            key = f"{rel}::{fn}::{kind}"
+            rows[key] = rows.get(key, 0) + 1
+    out = ["namespace Nun.Gen", "",
+           "/-- syntactic panic sites (`unwrap`/`expect`/`panic!`/`unreachable!`, lock acquisitions excluded) per function on the request path -/",
+           "def panicSites : List (List Nat × Nat) := ["]
+    items = sorted(rows.items())
+    for ix, (k, n) in enumerate(items):
+        out.append(f"  -- {k}")
+        out.append(f"  ({bytes_lit(k)}, {n})" + ("," if ix + 1 < len(items) else ""))
+    out += ["]", "", "end Nun.Gen", ""]
+    return "\n".join(out)
+
 def write(name, text):
     os.makedirs(OUT, exist_ok=True)
     p = os.path.join(OUT, name)
@@ -169,7 +274,7 @@ def write(name, text):
 
 def main():
     errors = []
-    for name, fn in [("Lits.lean", gen_lits)]:
+    for name, fn in [("Lits.lean", gen_lits), ("Guards.lean", gen_guards), ("PanicSites.lean", gen_panic_sites)]:
         try:
             write(name, "-- GENERATED by extract/extract.py from /repo/src — do not edit\n" + fn())
         except ExtractError as e:
